@@ -518,6 +518,44 @@ func (ee *evalEngine) renderGuarded(name string, ctx map[string]interface{}) (ou
 	return
 }
 
+// evalAfterHistory renders the case's main template, twice, on an engine that has a past: every template name of the
+// case was registered before with other text and rendered, a template that does not parse was refused, a template
+// whose constructs fail halfway was rendered, and names in other letter cases were seen. It describes the first
+// outcome that differs from (out, class); "" when none does.
+func evalAfterHistory(c Case, ctx map[string]interface{}, prepare func(*evalEngine), out, class string) string {
+	names := evalCaseSources(c)
+	evalEngineTweak = func(e *twig.Engine) {
+		for n := range names {
+			if e.RegisterString(n, "OLD:"+n+"{% block b %}old{% endblock %}{% macro m() %}old{% endmacro %}{{ 1 }}") == nil {
+				e.Render(n, map[string]interface{}{})
+			}
+		}
+		e.RegisterString("zz-does-not-parse", "lead {{ }} {% if %}")
+		e.RegisterString("zz-fails", "{% spaceless %}<a> x </a> {% apply upper %}p{{ zznosuchfn() }}{% endapply %}{% endspaceless %}")
+		e.Render("zz-fails", map[string]interface{}{})
+		e.RegisterString("zz-other-case", "{{ X }}{{ V }}{{ A }}{{ LOOP }}{{ I }}{{ ITEM }}{% set ACC = 1 %}")
+		e.Render("zz-other-case", map[string]interface{}{})
+	}
+	ee := newEvalEngine(c)
+	evalEngineTweak = nil
+	if !ee.regOK {
+		if class == "parse" {
+			return ""
+		}
+		return "on an engine that held other templates under these names before: does not register: " + ee.regEr
+	}
+	if prepare != nil {
+		prepare(ee)
+	}
+	for i := 1; i <= 2; i++ {
+		out2, class2, _ := ee.renderGuarded(c.str("main"), ctx)
+		if out2 != out || class2 != class {
+			return fmt.Sprintf("on an engine with a past (other templates under these names, a refused template, a failed render), render %d: ", i) + evalObserved(out2, class2) + " instead of " + evalObserved(out, class)
+		}
+	}
+	return ""
+}
+
 // evalRegisterRoute, when set, is the way newEvalEngine hands the case's templates to the engine: "parsed" is
 // ParseTemplate followed by RegisterTemplate, "compiled-shared" compiles each template once on another engine and
 // registers that one compiled object first with a third engine (which then gets other templates under the same
@@ -542,6 +580,53 @@ func evalByOtherRoutes(c Case, ctx map[string]interface{}, prepare func(*evalEng
 		}
 		if out2 != out || class2 != class {
 			return "with the templates handed over by route " + route + ": " + evalObserved(out2, class2) + " instead of " + evalObserved(out, class)
+		}
+	}
+	// the other entry points that render a registered template: Engine.RenderTo, and Template.Render / RenderTo on
+	// the handle Engine.Load returns
+	ee := newEvalEngine(c)
+	if !ee.regOK {
+		return ""
+	}
+	if prepare != nil {
+		prepare(ee)
+	}
+	for _, ep := range []string{"Engine.RenderTo", "Load + Template.Render", "Load + Template.RenderTo"} {
+		var out2, class2 string
+		ok := c08WithTimeout(30*time.Second, func() {
+			defer func() {
+				if r := recover(); r != nil {
+					out2, class2 = "", "panic"
+				}
+			}()
+			var err error
+			var sb strings.Builder
+			switch ep {
+			case "Engine.RenderTo":
+				err = ee.eng.RenderTo(&sb, c.str("main"), ctx)
+				out2 = sb.String()
+			default:
+				var t *twig.Template
+				if t, err = ee.eng.Load(c.str("main")); err == nil {
+					if ep == "Load + Template.Render" {
+						out2, err = t.Render(ctx)
+					} else {
+						err = t.RenderTo(&sb, ctx)
+						out2 = sb.String()
+					}
+				}
+			}
+			class2 = "none"
+			if err != nil {
+				out2, class2 = "", classifyError(err)
+			}
+		})
+		if !ok {
+			evalAbort = true
+			return "through " + ep + ": no answer within 30 s"
+		}
+		if out2 != out || class2 != class {
+			return "through " + ep + ": " + evalObserved(out2, class2) + " instead of " + evalObserved(out, class)
 		}
 	}
 	return ""
